@@ -1,0 +1,10 @@
+// +build verif
+
+package identity
+
+// VerifSetETHWitness sets the package-level "this node is an ethereum witness"
+// flag, which is shared by every App instance living in one process.
+func VerifSetETHWitness(v bool) { isETHWitness = v }
+
+// VerifIsETHWitness returns the flag.
+func VerifIsETHWitness() bool { return isETHWitness }
